@@ -150,3 +150,19 @@ Proof.
       * intros i Hi. rewrite <- Hx. rewrite Hsplit. rewrite app_nth2 by auto. apply nth_zeros; auto.
     + exists res. auto.
 Qed.
+
+(* complex_vertex_range = the labels of the root Siblings: exactly the vertices of the complex, ascending, once *)
+Theorem vertex_range_correct : forall l, wf l ->
+  (forall x, In x (map label l) <-> find_val [x] l <> None) /\ Sorted.StronglySorted Z.lt (map label l).
+Proof.
+  induction l as [|[[x w] c] r IH]; intro Hwf.
+  - split; [|constructor]. intro x. rewrite find_val_nil_l. cbn. tauto.
+  - apply wf_cons in Hwf as (Hlb & Hc & Hr). destruct (IH Hr) as [IH1 IH2]. cbn [map label fst]. split.
+    + intro z. cbn [In]. rewrite IH1. destruct (Z.compare_spec z x) as [E|E|E].
+      * subst. rewrite find_val_cons_eq_one. split; [congruence | auto].
+      * rewrite find_val_cons_lt by auto. split; [|congruence]. intros [H|H]; [lia|].
+        exfalso. rewrite find_val_one in H. apply H. rewrite (lb_sibs_get_lt x z r) by (auto; lia). reflexivity.
+      * rewrite find_val_cons_gt by auto. split; [intros [H|H]; [lia | auto] | auto].
+    + constructor; auto. rewrite Forall_forall. intros z Hz. apply IH1 in Hz.
+      apply lb_sibs_get_some with (r := r); auto. rewrite find_val_one in Hz. destruct (get z r); [congruence | cbn in Hz; congruence].
+Qed.
